@@ -13,35 +13,35 @@ C['C03'] = dict(cat='exploration', tech=BE,
     text="Every file as a word over {matching, non-matching line} up to length 8 (quick) / 11 (thorough) x the full product before/after/max in {0,1,2,3,9}^3 x invert, plus all files of <=4 lines with CR-terminated and empty lines under 9 line-end-sensitive patterns, plus 6 files of 150-400 lines with context sizes around the internal queue capacity, plus 20 further patterns (no-op spellings, literals anchored at one or both ends, flags, alternation) on 6 contexts, run through the real CatFile reader and compared with the reference grep-context selector of the statement: complete product of the context state machine with the reference up to that length.",
     ref="DESIGN.md 3.3, 4 (C03)")
 C['C10'] = dict(cat='exploration', tech=BE,
-    text="Exhaustive token-sequence enumeration of client inputs (commands, options, arguments, query texts, protocol envelopes, split writes, health-session commands, the content of the files a map query is pointed at (6 log formats x 5 data files with ragged rows, malformed tokens, binary bytes), every ordered pair and triple of well-formed commands on one session arriving back to back and while the earlier ones are at work) fed to real server handlers; close hand-shakes completed by several goroutines at once under all schedules within 2 deviations; a panic in any goroutine, a deadlock, or a starved second session is a violation.",
+    text="Exhaustive token-sequence enumeration of client inputs (commands, options, arguments, query texts, protocol envelopes, split writes, health-session commands, the content of the files a map query is pointed at (6 log formats x 5 data files with ragged rows, malformed tokens, binary bytes), server log levels from none to debug for the malformed envelopes, every ordered pair and triple of well-formed commands on one session arriving back to back and while the earlier ones are at work) fed to real server handlers; close hand-shakes completed by several goroutines at once under all schedules within 2 deviations; a panic in any goroutine, a deadlock, or a starved second session is a violation.",
     ref="DESIGN.md 3.3, 4 (C10)")
 C['C11'] = dict(cat='exploration', tech=BE,
-    text="Abstract queries enumerated as a product of clause menus, rendered in every surface variation (clause order, keyword case, separators, optional by/and), parsed by mapr.NewQuery and compared field by field with their denotation plus a one-line where/set evaluation; 39 malformed classes must be rejected; never a panic; every spelling of a decimal number; sibling queries (differing only inside a quoted string) parsed in one process in every order.",
+    text="Abstract queries enumerated as a product of clause menus, rendered in every surface variation (clause order, keyword case, separators, optional by/and), parsed by mapr.NewQuery and compared field by field with their denotation plus a one-line where/set evaluation; 39 malformed classes must be rejected; never a panic; every spelling of a decimal number; sibling queries (differing only inside a quoted string) parsed in one process in every order; part 2: free-running -race pass of 16 goroutines parsing as the first parses of a fresh process.",
     ref="DESIGN.md 3.3, 4 (C11)")
 C['C12'] = dict(cat='exploration', tech=BE,
     text="All short regexes over a delimiter-heavy alphabet plus 22 special shapes (literals anchored at one or both ends, flags, alternation, word boundaries, repetition) and alternations of 1000..70000 bytes x invert, input from a file and from a stdin pipe x option values, each run end to end (GrepClient -> wire encoding -> ServerHandler -> reader) and compared with the pattern compiled and applied directly.",
     ref="DESIGN.md 3.3, 4 (C12)")
 C['C13'] = dict(cat='model_checking', tech=MC,
-    text="All schedules within a deviation bound (quick d<=2, thorough d<=3) of 2-3 real ServerHandler sessions sharing one real limiter channel, cat, tail and map+cat, reads that fail after taking their slot, clients that never read (incl. grep with before-context), with cancellation at any point; invariant on every state: distinct open test files <= limit; end state: every non-cancelled read delivered, limiter empty. Part 2 (native): the server's own scheduled and continuous jobs, run by the real job-runner functions on a real server whose slots are held by SSH sessions, are not read beyond the limit and proceed when a slot frees. Part 3: free-running -race pass (data races in the read-command and server accounting code).",
+    text="All schedules within a deviation bound (quick d<=2, thorough d<=3) of 2-3 real ServerHandler sessions sharing one real limiter channel, cat, tail and map+cat, reads that fail after taking their slot, clients that never read (incl. grep with before-context), files named '-', with cancellation at any point; invariant on every state: distinct open test files <= limit; end state: every non-cancelled read delivered, limiter empty. Part 2 (native): the server's own scheduled and continuous jobs, run by the real job-runner functions on a real server whose slots are held by SSH sessions, are not read beyond the limit and proceed when a slot frees. Part 3: free-running -race pass (data races in the read-command and server accounting code).",
     ref="DESIGN.md 3.1, 3.2, 4 (C13)")
 C['C16'] = dict(cat='exploration', tech=BE,
-    text="Exhaustive enumeration of server byte streams (all messages of <=4/<=5 tokens over a 20-token alphabet, record prefixes, split writes) through the three real client handlers in both colour modes; oracle: no panic, strip(coloured)==strip(uncoloured); hidden close messages racing with the handler's tear-down, AGGREGATE messages of two servers racing with the result reporter, three mapreduce queries (incl. order by a plain field) with the result report produced after every stream, colours taken from the repository's example configuration file, under all schedules within 2 deviations; part 2: free-running -race pass of concurrent handlers in colour mode (any data race in the property's packages is a violation).",
+    text="Exhaustive enumeration of server byte streams (all messages of <=4/<=5 tokens over a 20-token alphabet, record prefixes, split writes) through the three real client handlers in both colour modes; oracle: no panic, strip(coloured)==strip(uncoloured); hidden close messages racing with the handler's tear-down, AGGREGATE messages of two servers racing with the result reporter, records whose text is a prefix or near miss of a severity word, three mapreduce queries (incl. order by a plain field) with the result report produced after every stream, colours taken from the repository's example configuration file, under all schedules within 2 deviations; part 2: free-running -race pass of concurrent handlers in colour mode (any data race in the property's packages is a violation).",
     ref="DESIGN.md 3.3, 4 (C16)")
 C['C18'] = dict(cat='model_checking', tech="explicit exhaustive exploration of every random-number answer sequence of the shuffle (environment choice points owned by the explorer) for every server list up to length 5/6, on the real discovery code",
-    text="All server lists up to length 5 (quick) / 6 (thorough) over 4 entries, as comma list, server file (plain, without final newline, CRLF, reached through one symbolic link and through a chain of two) and discovery module with 5 filters; a dcat over more unreachable servers than it connects to at a time; entries with and without a port under a non-default configured port; 3000 entries; every outcome of every random draw of the shuffle is explored (complete tree); oracle: returned multiset == distinct matching entries.",
+    text="All server lists up to length 5 (quick) / 6 (thorough) over 4 entries, as comma list, server file (plain, without final newline, CRLF, reached through one symbolic link and through a chain of two) and discovery module with 5 filters; a dcat over more unreachable servers than it connects to at a time; entries with and without a port under a non-default configured port; 3000 entries; a server list read from a pipe; every outcome of every random draw of the shuffle is explored (complete tree); oracle: returned multiset == distinct matching entries.",
     ref="DESIGN.md 3.3, 4 (C18)")
 
 C['C01'] = dict(cat='exploration', tech=BE,
-    text="Every file content of <=3/<=4 tokens over 16 byte tokens (0x00, the wire delimiter 0xAC alone and inside UTF-8 characters, 0xFF, leading '.', '|', ';', CR, runs around MaxLineLength), gzip/zstd encodings incl. format features (multi-member gzip with boundaries inside a line, header fields, stored blocks, multi-frame zstd), and a long-line family around MaxLineLength and the 32 KiB transport buffer, each run through the real dcat main body (serverless, controlled scheduler, incl. reads slow enough to span dtail's timers, a grid of disk and transport speeds for consecutive over-long lines, and one over-long-line scenario under all schedules within one deviation) and compared byte for byte with the statement's reference (newline inserted after every MaxLineLength non-newline bytes); part 2 fetches all contents of <=3/<=4 tokens and over-long lines through a real in-process dtail server over SSH (native build), also with the REAL dcat binary of the tree against a server in a process of its own (configuration skew, a session longer than the 3 s statistics interval).",
+    text="Every file content of <=3/<=4 tokens over 16 byte tokens (0x00, the wire delimiter 0xAC alone and inside UTF-8 characters, 0xFF, leading '.', '|', ';', CR, runs around MaxLineLength), gzip/zstd encodings incl. format features (multi-member gzip with boundaries inside a line, header fields, stored blocks, multi-frame zstd), histories of sessions on one server process (an earlier read that ends early, then a plain cat), and a long-line family around MaxLineLength and the 32 KiB transport buffer, each run through the real dcat main body (serverless, controlled scheduler, incl. reads slow enough to span dtail's timers, a grid of disk and transport speeds for consecutive over-long lines, and one over-long-line scenario under all schedules within one deviation) and compared byte for byte with the statement's reference (newline inserted after every MaxLineLength non-newline bytes); part 2 fetches all contents of <=3/<=4 tokens and over-long lines through a real in-process dtail server over SSH (native build), also with the REAL dcat binary of the tree against a server in a process of its own (configuration skew, a session longer than the 3 s statistics interval).",
     ref="DESIGN.md 3.3, 4 (C01), 9.6")
 C['C02'] = dict(cat='model_checking', tech=MC,
-    text="All schedules within a deviation bound (quick d<=2, thorough d<=2 on a larger scenario set; deviations = preemption, non-first ready select case, goroutine demotion) of complete dcat/dgrep sessions (real client main body, serverless connector, server handler, readers, client handler) over 1-3 files, with queueing behind the cat limit, more reads than twice the limit, globs that also match entries that are not read (directory, dangling link, denied file) and consumer stalls of 50 ms..61 s; oracle: per file exactly its selected lines once and in order, exit status 0, termination. Last part: free-running -race pass of concurrent real sessions (any data race in the reader, handler, pool and client packages is a violation).",
+    text="All schedules within a deviation bound (quick d<=2, thorough d<=2 on a larger scenario set; deviations = preemption, non-first ready select case, goroutine demotion) of complete dcat/dgrep sessions with 1-3 servers (real client main body, serverless connector, server handler, readers, client handler) over 1-3 files, with queueing behind the cat limit, more reads than twice the limit, globs that also match entries that are not read (directory, dangling link, denied file) and consumer stalls of 50 ms..61 s; oracle: per file exactly its selected lines once and in order, exit status 0, termination. Last part: free-running -race pass of concurrent real sessions (any data race in the reader, handler, pool and client packages is a violation).",
     ref="DESIGN.md 3.1, 3.2, 4 (C02)")
 C['C04'] = dict(cat='model_checking', tech=MC,
-    text="All schedules within a deviation bound (quick d<=2, thorough d<=3) of the real TailFile reader following a real file while a writer appends 1-3 lines in every composition into write() calls and a consumer receives; file opens/reads/writes are scheduling points; two followers delivering into one shared queue; a whole tail session across log rotation (truncate in place / rename and re-create); plus (canonical schedule) histories of 30..450 delivered lines before 1 or 3 lines are dropped; oracle relative to the offset at which the follow began: exactly the complete appended lines, once, in order; gaps only with a full queue and then TransmittedPerc < 100; every delivered line carries its own running number.",
+    text="All schedules within a deviation bound (quick d<=2, thorough d<=3) of the real TailFile reader following a real file while a writer appends 1-3 lines in every composition into write() calls and a consumer receives; file opens/reads/writes are scheduling points; two followers delivering into one shared queue; a whole tail session across log rotation (truncate in place / rename and re-create), one follow across 12 rotations; plus (canonical schedule) histories of 30..450 delivered lines before 1 or 3 lines are dropped; oracle relative to the offset at which the follow began: exactly the complete appended lines, once, in order; gaps only with a full queue and then TransmittedPerc < 100; every delivered line carries its own running number.",
     ref="DESIGN.md 3.1, 3.2, 4 (C04)")
 C['C05'] = dict(cat='exploration', tech=BE + "; differential oracle (partitioned run vs trivial partition of the same real code)",
-    text="Every table of <=2/<=3 log lines over 6-8 shapes per format x every assignment of lines to (server, file, interval) cells x ~150 queries, through the real server aggregator, client mapr handler, global group set and CSV writer; result must equal the central evaluation; plus 16 large/tiny/negative/fractional values through the real serialisation and merge, plus the client's reporting path (interim report, final report, arriving partial results) under all schedules within 2 deviations.",
+    text="Every table of <=2/<=3 log lines over 6-8 shapes per format x every assignment of lines to (server, file, interval) cells x ~150 queries, through the real server aggregator, client mapr handler, global group set and CSV writer; result must equal the central evaluation; plus quoted literals whose white space matters (reference and complete dmap sessions), 16 large/tiny/negative/fractional values through the real serialisation and merge, plus the client's reporting path (interim report, final report, arriving partial results) under all schedules within 2 deviations.",
     ref="DESIGN.md 3.3, 4 (C05)")
 C['C07'] = dict(cat='model_checking', tech=MC,
     text="All schedules within a deviation bound (quick d<=1, thorough d<=2) of a non-plain dcat session over 1-3 in-process servers x 1-2 files x 1-2 lines (plus 40000/70000-byte lines spanning several transport reads, globs in non-canonical spelling), the stdout logger's lock included as branching point; oracle: every output line is one whole correctly attributed REMOTE record, per source gap-free increasing line numbers; plus the real follow reader with a source faster than its consumer (every delivered line keeps its own running number); part 2: free-running -race pass of concurrent real sessions against one real server; part 3 (native fault enumeration): the real dcat binary reading through a TCP proxy that cuts the connection after k bytes, k on a grid over the whole stream.",
@@ -51,21 +51,21 @@ C['C06'] = dict(cat='model_checking', tech=MC,
     text="All schedules within a deviation bound (quick: d<=2 on two scenarios, d<=1 on three; thorough d<=2) of complete dmap runs: real MaprClient, one in-process server per server-list entry (map command, read commands behind the cat limiter, server Aggregate), per-server client handlers, GlobalGroupSet, final outfile, incl. a file that fails while being read (empty/corrupt .gz); oracle: final count and sum per key == totals over all files of all servers, exit status 0, termination. Plus the client side alone (two servers' handlers, periodic reporter, final report) within 2 deviations. Last part: free-running -race pass (any data race in the mapreduce packages is a violation).",
     ref="DESIGN.md 3.1, 3.2, 4 (C06)")
 C['C08'] = dict(cat='exploration', tech=BE,
-    text="All ordered rule lists of length <=3/<=4 over 11 rules (allow, deny, bare rules with ':', typed, foreign type; default and per-user) x 24 requested paths over a real tree with every symlink kind, FIFO, directory, device; verdict of HasFilePermission compared in both directions with an independent reference, plus end-to-end cat sessions (paths and globs, also with the client-settable options in the command word) delivering exactly the allowed content; part 2: free-running -race pass (concurrent permission checks of one glob on one user object).",
+    text="All ordered rule lists of length <=3/<=4 over 13 rules (allow, deny, bare rules with ':', Perl syntax, typed, foreign type; default and per-user) x 25 requested paths over a real tree with every symlink kind, FIFO, directory, device; verdict of HasFilePermission compared in both directions with an independent reference, plus end-to-end cat sessions (paths and globs, also with the client-settable options in the command word) delivering exactly the allowed content; part 2: free-running -race pass (concurrent permission checks of one glob on one user object).",
     ref="DESIGN.md 3.3, 4 (C08)")
 C['C09'] = dict(engine='native-ssh', cat='exploration', tech="bounded exhaustive enumeration of authorized_keys files, credentials and configurations against the real callbacks, plus real SSH handshakes against an in-process server (native build)",
-    text="All authorized_keys files of <=3/<=4 lines over 11 line kinds x offered keys through the real verifyAuthorizedKeys; the full product user x password x source address x job configuration through the real password callback; every sequence of <=3 authentication requests over 2 connections x 3 users x 3 keys through the real PublicKeyCallback; real SSH handshakes (a key file of the server account itself, one per key type rsa/ed25519/ecdsa P-256/384/521 and per RSA signature algorithm) and real health sessions (8 commands) against an in-process server.",
+    text="All authorized_keys files of <=3/<=4 lines over 11 line kinds x offered keys through the real verifyAuthorizedKeys; the full product user x password x source address (IPv4 and IPv6) x job configuration through the real password callback; every sequence of <=3 authentication requests over 2 connections x 3 users x 3 keys through the real PublicKeyCallback; real SSH handshakes (a key file of the server account itself, one per key type rsa/ed25519/ecdsa P-256/384/521 and per RSA signature algorithm) and real health sessions (8 commands) against an in-process server.",
     ref="DESIGN.md 3.3, 3.5, 4 (C09)",
     note="Native build (no rewriting): real goroutines and loopback sockets. Trusted: x/crypto/ssh (proof of key possession), the kernel. Waiting is by positive protocol events; no timing oracle.")
 C['C14'] = dict(engine='native-ssh', cat='model_checking', tech="explicit-state breadth-first search over connection-event histories, every transition replayed against a fresh real SSH server (reference model = a counter); plus stateless deviation-bounded schedule exploration of the real accounting code under the controlled scheduler",
-    text="Breadth-first search over histories of connection events (connect, 5 kinds of handshake incl. the login of a scheduled job, channels, a burst of 20 channel opens, shell requests, command, abrupt close, normal end) of three connections against a real in-process server with MaxConnections 2, de-duplicated by model state, depth 7 (quick) / 9 (thorough); after every event the reported connection count must equal the number actually open, never more than MaxConnections are served, and connects are refused/accepted as the free slots dictate. Part 2 (controlled build): all schedules within 2 deviations of the real handleConnection/accounting code for 3-4 sockets whose SSH clients run free; invariant 0 <= reported <= MaxConnections in every state, 0 at the end, and a socket is turned away at accept only if the count had reached MaxConnections at that moment.",
+    text="Breadth-first search over histories of connection events (connect, 5 kinds of handshake incl. the login of a scheduled job, channels, a burst of 20 channel opens, shell requests, command, abrupt close, normal end) of three connections against a real in-process server with MaxConnections 2, de-duplicated by model state, depth 7 (quick) / 9 (thorough); after every event the reported connection count must equal the number actually open, never more than MaxConnections are served, and connects are refused/accepted as the free slots dictate. Part 2 (controlled build): all schedules within 2 deviations of the real handleConnection/accounting code for 3-4 sockets whose SSH clients run free; invariant 0 <= reported <= MaxConnections in every state, 0 at the end, and a socket is turned away at accept only if the count had reached MaxConnections at that moment, also when one accept(2) fails with EMFILE.",
     ref="DESIGN.md 3.5, 4 (C14)",
     note="Native build: x/crypto/ssh and loopback TCP run free; the harness controls only the order of client-side events and synchronises on positive protocol events; a mismatch must persist for 10 s. Trusted: x/crypto/ssh, the kernel.")
 C['C15'] = dict(cat='fault_enumeration', tech="exhaustive crash-point enumeration: explicit-state search over file-system states, the real WriteResult killed before every mutating file-system operation of every run of every history",
-    text="From {no files, a complete earlier outfile} every run variant (replace/append x result set x interim report) is executed on the real GlobalGroupSet.WriteResult over a recording file system, to completion and killed before every mutating operation, and with a write error (half the data, then ENOSPC) at every write; states de-duplicated and expanded to histories of 2/3 runs; the half-written / header-once / rows-preserved / .query invariants are evaluated on every state.",
+    text="From {no files, a complete earlier outfile} every run variant (replace/append x result set x interim report) is executed on the real GlobalGroupSet.WriteResult over a recording file system, to completion and killed before every mutating operation, and with a write error (half the data, then ENOSPC) at every write; states de-duplicated and expanded to histories of 2/3 runs; the half-written / header-once / rows-preserved / .query invariants are evaluated on every state. Part 2 (native): three runs of a scheduled job on a real server against the same outfile; a finished run leaves no writer beside the outfile.",
     ref="DESIGN.md 3.4, 4 (C15)")
 C['C17'] = dict(cat='model_checking', tech=MC + " combined with exhaustive enumeration of known-hosts files, contacted hosts and answers",
-    text="All known-hosts files of <=2/<=3 lines over 10 line kinds x contacted host sets x 12 answers + trust-all, the callback obtained directly and through the client's real InitSSHAuthMethods (explicit key file, ~/.ssh/id_rsa), shutdown of the client inside the prompt's collection window; part 2 (native): the real dcat binary contacting a server process BY NAME for every subset of known_hosts entry kinds (name/address x right/other key) x answers; the real host-key callbacks run as goroutines against the real prompt loop under the controlled scheduler (all schedules with <=1 deviation); oracle: proceed iff knownhosts accepts or the user approved or trust-all; refused hosts are reported untrusted; rewritten file keeps unrelated entries intact.",
+    text="All known-hosts files of <=2/<=3 lines over 10 line kinds x contacted host sets x 12 answers + trust-all, the callback obtained directly and through the client's real InitSSHAuthMethods (explicit key file, ~/.ssh/id_rsa), shutdown of the client inside the prompt's collection window, a re-connect with a changed key; part 2 (native): the real dcat binary contacting a server process BY NAME for every subset of known_hosts entry kinds (name/address x right/other key) x answers; the real host-key callbacks run as goroutines against the real prompt loop under the controlled scheduler (all schedules with <=1 deviation); oracle: proceed iff knownhosts accepts or the user approved or trust-all; refused hosts are reported untrusted; rewritten file keeps unrelated entries intact.",
     ref="DESIGN.md 3.1-3.3, 4 (C17)")
 
 PENDING = "check not built yet in this session (work in progress; see DESIGN.md section 4)"
